@@ -3,6 +3,8 @@ import RtenVerif.Lemmas.IterMap
 import RtenVerif.Lemmas.IterSched
 import RtenVerif.Lemmas.IterPartition
 import RtenVerif.Lemmas.IterChunks
+import RtenVerif.Lemmas.IterLane
+import RtenVerif.Lemmas.IterDistinct
 
 /-!
 # C07 — Tensor iterators yield exactly the logical elements in order
@@ -52,10 +54,18 @@ def lanesSpec (dims : List (Nat × Nat)) (dim : Nat) : List Item :=
   else (rowMajor (dims.eraseIdx dim)).map
     (laneItem (dims.getD dim (0, 0)).1 (dims.getD dim (0, 0)).2)
 
-/-- **C07.T3a** `lanes(dim)` / `lanes_mut(dim)`: every history observes the deque over the
-logical lane list. -/
-theorem c07_lanes_history (dims : List (Nat × Nat)) (dim : Nat) (h : Hist) :
-    run (lanesOps dims dim) h (lanesNew dims dim) = run (listOps Item) h (lanesSpec dims dim) := by
+/-- **C07.T3a** `lanes(dim)` / `lanes_mut(dim)`: whenever the constructor does not panic
+(`lanesNew? = some s`: valid `dim`; for `lanes_mut`, not `is_broadcast`), every history
+observes the deque over the logical lane list. -/
+theorem c07_lanes_history (dims : List (Nat × Nat)) (dim : Nat) (mutable : Bool) (s : Offsets)
+    (hs : lanesNew? dims dim mutable = some s) (h : Hist) :
+    run (lanesOps dims dim) h s = run (listOps Item) h (lanesSpec dims dim) := by
+  have hs' : s = lanesNew dims dim := by
+    unfold lanesNew? at hs
+    split at hs
+    · exact (Option.some.inj hs).symm
+    · cases hs
+  subst hs'
   unfold lanesOps lanesNew lanesSpec
   by_cases hz : total dims = 0
   · obtain ⟨hinv, habs⟩ := offsets_new dims
@@ -67,6 +77,29 @@ theorem c07_lanes_history (dims : List (Nat × Nat)) (dim : Nat) (h : Hist) :
     simp only [hz, if_false]
     rw [run_refines (mapOps_refines _) h _ hinv, habs]
 
+/-- Non-vacuity and the modelled constructor panics: a valid mutable case; an invalid `dim`;
+`lanes_mut` on a layout with a zero stride (even on a size-1 dim) panics. -/
+example : (lanesNew? [(2, 3), (3, 1)] 0 true).isSome = true ∧ lanesNew? [(2, 3), (3, 1)] 2 false = none ∧
+    lanesNew? [(1, 0), (3, 1)] 1 true = none ∧ (lanesNew? [(1, 0), (3, 1)] 1 false).isSome = true := by
+  decide
+
+/-- **C07.T3a-lane** `Lane` (the element iterator over one lane; not a `SplitIterator`): every
+split-free history of next / next_back / nth / len / fold / rev observes the deque over the
+lane's element offsets. -/
+theorem c07_lane_history (size stride start : Nat) (h : Hist) (hn : h.noSplit = true) :
+    run LaneIt.ops h (LaneIt.new size stride start) =
+      run (listOps Nat) h (laneItem size stride start).2 := by
+  rw [run_refines_ns lane_refines h hn _ trivial, lane_new]
+
+/-- **C07.T3a-lanemut** `LaneMut`, including its `nth` override
+(`index.saturating_add(n).min(end)`). -/
+theorem c07_lane_mut_history (size stride start : Nat) (h : Hist) (hn : h.noSplit = true) :
+    run LaneIt.opsMut h (LaneIt.new size stride start) =
+      run (listOps Nat) h (laneItem size stride start).2 := by
+  rw [run_refines_ns laneMut_refines h hn _ trivial, lane_new]
+
+example : (Hist.nth 1 (.back (.next (.len .rev)))).noSplit = true := by decide
+
 /-- Logical inner-view list for `inner_iter(n)`: one view per index of the outer dims (outer
 strides are irrelevant, and zeroed by the code, when the inner views are empty). -/
 def innerSpec (dims : List (Nat × Nat)) (n : Nat) : List Item :=
@@ -75,16 +108,26 @@ def innerSpec (dims : List (Nat × Nat)) (n : Nat) : List Item :=
   (rowMajor (if minDataLen inner = 0 then outer.map (fun d => (d.1, 0)) else outer)).map
     (innerItem inner)
 
-/-- **C07.T3b** `inner_iter(n)` / `inner_iter_mut(n)`: every history observes the deque over
-the logical inner-view list. -/
-theorem c07_inner_history (dims : List (Nat × Nat)) (n : Nat) (h : Hist) :
-    run (innerOps dims n) h (innerNew dims n) = run (listOps Item) h (innerSpec dims n) := by
+/-- **C07.T3b** `inner_iter(n)` / `inner_iter_mut(n)`: whenever the constructor does not panic
+(`innerNew? = some s`, i.e. `n ≤ ndim`), every history observes the deque over the logical
+inner-view list. -/
+theorem c07_inner_history (dims : List (Nat × Nat)) (n : Nat) (s : Offsets)
+    (hs : innerNew? dims n = some s) (h : Hist) :
+    run (innerOps dims n) h s = run (listOps Item) h (innerSpec dims n) := by
+  have hs' : s = innerNew dims n := by
+    unfold innerNew? at hs
+    split at hs
+    · exact (Option.some.inj hs).symm
+    · cases hs
+  subst hs'
   unfold innerOps innerNew innerSpec
   simp only
   obtain ⟨hinv, habs⟩ := offsets_new
     (if minDataLen (dims.drop (dims.length - n)) = 0
       then (dims.take (dims.length - n)).map (fun d => (d.1, 0)) else dims.take (dims.length - n))
   rw [run_refines (mapOps_refines _) h _ hinv, habs]
+
+example : (innerNew? [(2, 3), (3, 1)] 2).isSome = true ∧ innerNew? [(2, 3), (3, 1)] 3 = none := by decide
 
 /-! ### Parallel schedules and partition -/
 
@@ -104,14 +147,15 @@ example : Obs.panic ∉ run Offsets.ops (Sched.node 5 (.node 2 .leaf .leaf) .lea
 /-- **C07.T3c** The inner views of `inner_iter(n)` partition the tensor: when the inner views
 are non-empty, concatenating the element offsets of the logical inner-view list gives the
 row-major offset list of the whole layout (each element in exactly one view, in order). -/
-theorem c07_inner_partition (dims : List (Nat × Nat)) (n : Nat)
+theorem c07_inner_partition (dims : List (Nat × Nat)) (n : Nat) (_hn : n ≤ dims.length)
     (hne : minDataLen (dims.drop (dims.length - n)) ≠ 0) :
     (innerSpec dims n).flatMap (·.2) = rowMajor dims := by
   unfold innerSpec
   simp only [hne, if_false, List.flatMap_map, innerItem]
   rw [← rowMajor_append, List.take_append_drop]
 
-example : minDataLen ([(2, 6), (3, 2), (2, 1)].drop (3 - 2)) ≠ 0 := by decide
+example : 2 ≤ [(2, 6), (3, 2), (2, 1)].length ∧ minDataLen ([(2, 6), (3, 2), (2, 1)].drop (3 - 2)) ≠ 0 := by
+  decide
 
 
 /-! ### Axis iterators and axis chunks (C07.T3d, T4) -/
@@ -119,20 +163,29 @@ example : minDataLen ([(2, 6), (3, 2), (2, 1)].drop (3 - 2)) ≠ 0 := by decide
 /-- **C07.T3d** `axis_iter(axis)` / `axis_iter_mut(axis)`: for every view, every valid axis and
 every history (incl. `split_at` after partial consumption from either end), the yielded
 sub-views are exactly those of a deque over `[index_axis(axis, i) | i < size(axis)]`. -/
-theorem c07_axis_history (v : View) (axis : Nat) (ha : axis < v.dims.length) (h : Hist) :
-    run AxisIter.ops h (AxisIter.new v axis) = run (listOps Item) h (axisSpec v axis) := by
-  obtain ⟨hinv, habs⟩ := axis_new v axis ha
-  rw [run_refines axis_refines h _ hinv, habs]
+theorem c07_axis_history (v : View) (axis : Nat) (mutable : Bool) (s : AxisIter)
+    (hs : AxisIter.new? v axis mutable = some s) (h : Hist) :
+    run AxisIter.ops h s = run (listOps Item) h (axisSpec v axis) := by
+  unfold AxisIter.new? at hs
+  split at hs
+  · rename_i hc
+    obtain ⟨hinv, habs⟩ := axis_new v axis hc.1
+    rw [← Option.some.inj hs, run_refines axis_refines h _ hinv, habs]
+  · cases hs
 
 /-- **C07.T4** `axis_chunks(axis, c)` / `axis_chunks_mut(axis, c)`: for every view, valid axis,
 chunk size `c > 0` and every history, the yielded sub-views are exactly those of a deque over
 the logical chunks `[k*c, min((k+1)*c, size))`, `k < ceil(size / c)` — front items in order,
 back items in reverse, exact lengths, `split_at` on chunk boundaries. -/
-theorem c07_chunks_history (v : View) (axis c : Nat) (ha : axis < v.dims.length) (hc : 0 < c)
-    (h : Hist) :
-    run AxisChunks.ops h (AxisChunks.new v axis c) = run (listOps Item) h (chunksSpec v axis c) := by
-  obtain ⟨hinv, habs⟩ := chunks_new v axis c ha hc
-  rw [run_refines chunks_refines h _ hinv, habs]
+theorem c07_chunks_history (v : View) (axis c : Nat) (mutable : Bool) (s : AxisChunks)
+    (hs : AxisChunks.new? v axis c mutable = some s) (h : Hist) :
+    run AxisChunks.ops h s = run (listOps Item) h (chunksSpec v axis c) := by
+  unfold AxisChunks.new? at hs
+  split at hs
+  · rename_i hc
+    obtain ⟨hinv, habs⟩ := chunks_new v axis c hc.1 hc.2.1
+    rw [← Option.some.inj hs, run_refines chunks_refines h _ hinv, habs]
+  · cases hs
 
 /-- **C07.T4 (cover)** The logical chunks partition the axis: their index ranges, concatenated
 in order, are exactly `0 .. size` — every index of the axis lies in exactly one chunk. -/
@@ -140,8 +193,80 @@ theorem c07_chunks_cover (size c : Nat) (hc : 0 < c) :
     (List.range (nChunks size c)).flatMap (chunkRange size c) = List.range size :=
   chunks_cover size c hc
 
-/-- Non-vacuity of the hypotheses (a 2×5×3 view, axis 1, chunks of 2). -/
-example : (1 : Nat) < (View.mk 0 [(2, 15), (5, 3), (3, 1)]).dims.length ∧ 0 < 2 := by decide
+/-- Non-vacuity of the hypotheses (a 2×5×3 view, axis 1, chunks of 2), and the modelled
+constructor panics (invalid axis, chunk size 0, mutable iteration over a zero-stride layout). -/
+example : (AxisIter.new? ⟨0, [(2, 15), (5, 3), (3, 1)]⟩ 1 true).isSome = true ∧
+    (AxisChunks.new? ⟨0, [(2, 15), (5, 3), (3, 1)]⟩ 1 2 true).isSome = true ∧
+    AxisIter.new? ⟨0, [(2, 15), (5, 3), (3, 1)]⟩ 3 false = none ∧
+    AxisChunks.new? ⟨0, [(2, 15), (5, 3), (3, 1)]⟩ 1 0 false = none ∧
+    AxisChunks.new? ⟨0, [(2, 15), (5, 3), (3, 1)]⟩ 3 2 false = none ∧
+    AxisIter.new? ⟨0, [(1, 0), (3, 1)]⟩ 1 true = none ∧
+    (AxisIter.new? ⟨0, [(1, 0), (3, 1)]⟩ 1 false).isSome = true := by decide
+
+/-! ### Each element at most once (mutable iterators) -/
+
+/-- **C07.M1** `iter_mut()`: for every layout accepted by the overlap check that `TensorViewMut`
+constructors apply (`may_have_internal_overlap = false`, C08) and every history — including
+fold / reverse-drain terminals and both halves of every `split_at` — all offsets handed out are
+pairwise distinct: no element is handed out twice. -/
+theorem c07_iter_mut_distinct (dims : List (Nat × Nat)) (h : Hist)
+    (hno : RtenVerif.Overlap.mayOverlap dims = false) :
+    (yielded (run Offsets.ops h (Offsets.new dims))).Nodup := by
+  rw [c07_iter_history]
+  exact yielded_nodup h _ (rowMajor_nodup dims hno)
+
+/-- **C07.M2** `inner_iter_mut(n)`: the element offsets of all inner views handed out over any
+history are pairwise distinct (non-overlapping layout, non-empty inner views). -/
+theorem c07_inner_mut_disjoint (dims : List (Nat × Nat)) (n : Nat) (s : Offsets)
+    (hs : innerNew? dims n = some s) (h : Hist)
+    (hne : minDataLen (dims.drop (dims.length - n)) ≠ 0)
+    (hno : RtenVerif.Overlap.mayOverlap dims = false) :
+    ((yielded (run (innerOps dims n) h s)).flatMap (·.2)).Nodup := by
+  have hn : n ≤ dims.length := by
+    unfold innerNew? at hs
+    split at hs
+    · assumption
+    · cases hs
+  rw [c07_inner_history dims n s hs h]
+  apply yielded_flat_nodup
+  rw [c07_inner_partition dims n hn hne]
+  exact rowMajor_nodup dims hno
+
+/-- **C07.M3** `LaneMut`: the offsets handed out by one mutable lane over any split-free history
+are pairwise distinct when the lane's stride is non-zero. -/
+theorem c07_lane_mut_distinct (size stride start : Nat) (h : Hist) (hn : h.noSplit = true)
+    (hst : 0 < stride) :
+    (yielded (run LaneIt.opsMut h (LaneIt.new size stride start))).Nodup := by
+  rw [c07_lane_mut_history size stride start h hn]
+  apply yielded_nodup
+  simp only [laneItem]
+  unfold List.Nodup
+  rw [List.pairwise_map]
+  refine (List.nodup_range (n := size)).imp ?_
+  intro a b hab heq
+  have : a * stride = b * stride := by omega
+  exact hab (Nat.eq_of_mul_eq_mul_right hst this)
+
+/-- **C07.M4** Item level, every kind: over any history the sub-views handed out by
+`lanes(_mut)`, `axis_iter(_mut)` and `axis_chunks(_mut)` are a permutation of a sublist of the
+logical item list — each lane / axis slice / chunk at most once. -/
+theorem c07_items_at_most_once (h : Hist) :
+    (∀ dims dim m s, lanesNew? dims dim m = some s →
+      SubPerm (yielded (run (lanesOps dims dim) h s)) (lanesSpec dims dim)) ∧
+    (∀ v axis m s, AxisIter.new? v axis m = some s →
+      SubPerm (yielded (run AxisIter.ops h s)) (axisSpec v axis)) ∧
+    (∀ v axis c m s, AxisChunks.new? v axis c m = some s →
+      SubPerm (yielded (run AxisChunks.ops h s)) (chunksSpec v axis c)) := by
+  refine ⟨?_, ?_, ?_⟩
+  · intro dims dim m s hs
+    rw [c07_lanes_history dims dim m s hs h]; exact yielded_subperm h _
+  · intro v axis m s hs
+    rw [c07_axis_history v axis m s hs h]; exact yielded_subperm h _
+  · intro v axis c m s hs
+    rw [c07_chunks_history v axis c m s hs h]; exact yielded_subperm h _
+
+/-- Non-vacuity: the transposed 3×3 layout is accepted by the overlap check. -/
+example : RtenVerif.Overlap.mayOverlap [(3, 1), (3, 3)] = false := by decide
 
 /-! ### Non-vacuity: concrete non-trivial histories (kernel-evaluated) -/
 
